@@ -115,10 +115,8 @@ def circuit_features(sc) -> set[str]:
         f.add("ids:sparse")
     if ids and max(ids) >= 8:
         f.add("ids:>=8")
-    from cirkit.utils.scope import Scope
-
-    if list(Scope(ids)) != ids:
-        f.add("ids:iter-unsorted")
+    if list(frozenset(ids)) != ids:
+        f.add("ids:iter-unsorted")  # the hash-table order of the underlying set is not the id order
     if len(sc.outputs) > 1:
         f.add("multi-output")
     outs = set(sc.outputs)
